@@ -17,6 +17,7 @@ from __future__ import annotations
 import ast
 
 from .common import *  # noqa: F401,F403
+from . import boundary, fsmodel as FSM
 
 IMG = "pyxel/util/image.py"
 BOUNDED = {
@@ -506,3 +507,98 @@ def cache_transparent(u: Unit):
         u.oblige(p, "cache.transparent[second load]", (b.t == want(X2, Y2, e_end)) if isinstance(b, VOpaque) and b.t is not None else False, w, CACHE_HISTORY_REPLAY,
                  info={"small": [X1, Y1, X2, Y2]})
     u.cover("cache.transparent.cover", ps, lambda p: p.kind == "return")
+
+
+# ---- tables: the requested columns get the requested names (load_table_v2) -------------------------------------------------------------
+TABLE_REPLAY = lambda w: {"code": """
+import numpy as np, tempfile, os
+from pyxel.inputs import load_table_v2
+d = tempfile.mkdtemp()
+data = np.array([[0.1, 400.0, 7.0], [0.35, 500.0, 8.0], [0.8, 600.0, 9.0], [0.55, 700.0, 10.0]])
+VIOLATED, DETAIL = False, 'every named column holds the file column it was asked for'
+for sep, ext in (('\\t', 'txt'), (' ', 'txt'), (',', 'csv'), ('|', 'data'), (';', 'txt')):
+    for header in (False, True):
+        fn = os.path.join(d, f'table_{ord(sep)}_{header}.{ext}')
+        with open(fn, 'w') as f:
+            if header: f.write(sep.join(['A', 'B', 'C']) + '\\n')
+            for row in data: f.write(sep.join(repr(float(x)) for x in row) + '\\n')
+        for cols in ({'qe': 0, 'wavelength': 1}, {'wavelength': 1, 'qe': 0}, {'other': 2, 'qe': 0}):
+            req = {k: ('ABC'[v] if header else v) for k, v in cols.items()}      # file columns are addressed by header label when there is a header
+            try:
+                t = load_table_v2(fn, rename_cols=req, header=header)
+            except Exception as e:
+                VIOLATED, DETAIL = True, f'delimiter {sep!r} header={header} rename_cols={cols}: {e!r}'; break
+            for name, idx in cols.items():
+                if not np.allclose(np.asarray(t[name], dtype=float), data[:, idx]):
+                    VIOLATED, DETAIL = True, f'delimiter {sep!r} header={header} rename_cols={cols}: column {name!r} holds {np.asarray(t[name]).tolist()}, file column {idx} is {data[:, idx].tolist()}'; break
+        t = load_table_v2(fn, header=header)
+        if t.shape != (4, 3) or not np.allclose(t.to_numpy(dtype=float), data):
+            VIOLATED, DETAIL = True, f'delimiter {sep!r} header={header}: table read back with shape {t.shape}'
+fn = os.path.join(d, 't.npy'); np.save(fn, data)
+t = load_table_v2(fn, rename_cols={'wavelength': 1, 'qe': 0, 'other': 2})
+if not (np.allclose(t['qe'], data[:, 0]) and np.allclose(t['wavelength'], data[:, 1])):
+    VIOLATED, DETAIL = True, 'npy table: named columns hold other file columns'
+""", "expect": "load_table_v2 reads a delimited / npy table back with its shape and values; rename_cols names each requested FILE column, in whatever order they are requested"}
+
+
+@unit("C20", "table.columns")
+def table_columns(u: Unit):
+    """load_table_v2, delimited-text branch: the reader (pandas read_csv / read_table, boundary) is asked for the FILE columns that
+    rename_cols lists, with the sniffed delimiter and the header flag, and the result is that table with each requested file column
+    renamed BY LABEL to the name asked for it (pandas returns usecols columns in file order, so a positional renaming is only right for
+    ascending requests). Other ways of naming the columns are not recognised -> undecided, decided by the native stand-in."""
+    fi = u.fn("pyxel/inputs/loader.py::load_table_v2")
+    for ext, reader in ((".csv", "pandas.read_csv"), (".txt", "pandas.read_table")):
+        for rename in (True, False):
+            cfg = Cfg("real")
+            boundary.install(cfg)
+            FSM.install(cfg)
+            cfg.contracts["pyxel/util/fileutil.py::resolve_with_working_directory"] = Contract("pyxel/util/fileutil.py::resolve_with_working_directory",
+                                                                                                  lambda ex, args, kwargs, fr: kwargs.get("filename", args[0] if args else None), "path resolution (identity on absolute paths)")
+            cfg.lib_overrides["builtins.open"] = lambda ex, f, args, kwargs, fr: VOpaque("xr", None, {"label": "file"})
+            cfg.lib_overrides["io.StringIO"] = lambda ex, f, args, kwargs, fr: VOpaque("xr", None, {"label": "text buffer", "args": list(args)})
+            cfg.lib_overrides["csv.Sniffer"] = lambda ex, f, args, kwargs, fr: VOpaque("sniffer", None, {})
+            cfg.lib_overrides[("opaque_attr", "sniffer")] = lambda ex, obj, name, fr: VLib("sniffer." + name, obj)
+            cfg.lib_overrides["sniffer.sniff"] = lambda ex, f, args, kwargs, fr: VOpaque("dialect", None, {})
+            cfg.lib_overrides[("opaque_attr", "dialect")] = lambda ex, obj, name, fr: VStr(z3.String("sniffed_delimiter")) if name == "delimiter" else ex.throw("AttributeError", name)
+
+            def setup(ex, ext=ext, rename=rename):
+                ex.st.assume(z3.Or(*[z3.String("sniffed_delimiter") == z3.StringVal(s_) for s_ in ("\t", " ", ",", "|", ";")]))
+                ex.st.assume(z3.And(z3.Int("col_of_wavelength") >= 0, z3.Int("col_of_qe") >= 0, z3.Int("col_of_wavelength") != z3.Int("col_of_qe")))      # two different file columns
+                ex.hold = {"names": [VStr("wavelength"), VStr("qe")], "cols": [VInt(z3.Int("col_of_wavelength")), VInt(z3.Int("col_of_qe"))]}
+                rc = ex.st.alloc(HDict(list(zip(ex.hold["names"], ex.hold["cols"])))) if rename else NONE
+                return [VStr("/data/table" + ext)], {"rename_cols": rc, "header": VBool(z3.Bool("header"))}
+            tag = f"{ext},{'rename' if rename else 'plain'}"
+            ps = u.paths(fi, setup, cfg, label=f"load_table_v2[{tag}]")
+            for p in ps:
+                if p.kind != "return":
+                    u.oblige(p, f"table.columns.no_raise[{tag}]", False, {"exc": p.exc_name()}, TABLE_REPLAY)
+                    continue
+                reads = [e for e in p.st.events if e[0] == "lib_call" and e[1] in ("pandas.read_csv", "pandas.read_table")]
+                ok = len(reads) == 1 and reads[0][1] == reader
+                kw = reads[0][3] if ok else {}
+                hd = kw.get("header")
+                ok = ok and isinstance(kw.get("delimiter", kw.get("sep")), VStr) and z3.eq(z_str(kw.get("delimiter", kw.get("sep")).v), z3.String("sniffed_delimiter"))
+                u.oblige(p, f"table.columns.reader_of_the_suffix_with_sniffed_delimiter[{tag}]", bool(ok), {}, TABLE_REPLAY)
+                if not ok:
+                    continue
+                table = None
+                for e in p.st.events:
+                    pass
+                res = p.value
+                if not rename:
+                    # the table as read
+                    plain = isinstance(res, VOpaque) and str(res.info.get("label", "")).startswith(reader)
+                    u.oblige(p, f"table.columns.table_as_read[{tag}]", bool(plain), {}, TABLE_REPLAY)
+                    continue
+                fn_ = res.info.get("fn") if isinstance(res, VOpaque) else None
+                if not (isinstance(fn_, VOpaque) and fn_.info.get("attr") == "rename" and str(fn_.info.get("of").info.get("label", "")).startswith(reader)):
+                    u.undecide(f"table.columns.renamed_by_label[{tag}]", fi.qualname, f"the result is not <table read>.rename(columns=...): {str(res.info.get('label') if isinstance(res, VOpaque) else res)[:80]}")
+                    continue
+                m = p.ex.try_dict(res.info.get("kwargs", {}).get("columns")) or []
+                good = len(m) == 2 and all(any(k is c and v is n for k, v in m) for n, c in zip(p.ex.hold["names"], p.ex.hold["cols"]))
+                u.oblige(p, f"table.columns.renamed_by_label[{tag}]", bool(good), {"mapping": str([(str(k), str(v)) for k, v in m])}, TABLE_REPLAY)
+            u.cover(f"table.columns.cover[{tag}]", ps, lambda p: p.kind == "return")
+
+
+STANDIN = {r"table\.columns": TABLE_REPLAY}
